@@ -911,3 +911,38 @@ func ruleC01R10(c *Ctx) {
 		c.ok("C01.R10", nil, "Timer.Reset on a drained timer", 0, "no (*time.Timer).Reset in the module: every timed wait uses a fresh timer (time.After)")
 	}
 }
+
+// R11 (added after seed c01f): the unterminated tail of the line buffer is only given up when the connection has ended.
+// Flush() emits the complete lines and keeps what follows the last newline for the next read; FlushAll() emits (or
+// discards) that tail as a record of its own. Called while more bytes can still arrive — on a read timeout, between two
+// reads — it cuts a record that is merely slow in two: the head is delivered truncated, the rest has no header and is
+// dropped. So after every call of FlushAll no further Read of the reader may be reachable (paths of the caller's region).
+func init() {
+	register("C01", "C01.R11", ruleC01R11)
+	register("C09", "C01.R11", ruleC01R11)
+}
+
+func ruleC01R11(c *Ctx) {
+	const aRead = "input/tcplistener.(*multiLineReader).Read"
+	n := 0
+	for _, fn := range c.P.universe {
+		for _, s := range c.callsTo(fn, anchorPred(aFlushAll)) {
+			n++
+			root := fn
+			for _, cand := range c.P.universe {
+				if cand.Parent() == nil && c.helpersOf(cand)[fn] {
+					root = cand
+				}
+			}
+			q := c.pq(root)
+			hit, trail := q.Reach(after(s), func(in ssa.Instruction) bool {
+				ci, ok := in.(ssa.CallInstruction)
+				return ok && ci.Common().StaticCallee() != nil && isAnchor(ci.Common().StaticCallee(), aRead)
+			})
+			c.check(hit == nil, "C01.R11", fn, "no read follows FlushAll", s.Pos(),
+				"the reader is not read from again after its unterminated tail was flushed: the connection has ended",
+				"after FlushAll the connection is read from again ("+c.P.trailString(trail)+"): a record that arrives in two pieces with a pause in between is cut — the first piece is emitted (or discarded) as a record of its own and the rest, which has no header, is dropped")
+		}
+	}
+	c.floor("C01.R11", "FlushAll call sites", n, 1)
+}
